@@ -173,9 +173,15 @@ def run(prop, tier, replay=None):
             evs = merge([g["events"] + [{"e": "adv", "n": g["tail"]}] for g in group], rnd)
             mid = "C15-m%d" % i
             multis.append({"id": mid, "cfg": cfg, "seed": 1, "sessions": len(group), "events": evs, "tail": 5})
+            # the solo run of a session lasts exactly as long as the multi-session run (a timer that fires late in
+            # the multi run - connect timeout, sleep expiry - must also get the chance to fire in the solo run)
+            total = lambda evs: sum(e["n"] for e in evs if e["e"] == "adv")
+            horizon = total(evs)
             for k2, g in enumerate(group):
-                solos.append({"id": "%s-solo%d" % (mid, k2), "cfg": cfg, "seed": 1, "sessions": 1,
-                              "events": [dict(e, s=0) for e in merge([g["events"] + [{"e": "adv", "n": g["tail"]}]], rnd)], "tail": 5})
+                sev = [dict(e, s=0) for e in merge([g["events"] + [{"e": "adv", "n": g["tail"]}]], rnd)]
+                if horizon > total(sev):
+                    sev.append({"s": 0, "e": "adv", "n": horizon - total(sev)})
+                solos.append({"id": "%s-solo%d" % (mid, k2), "cfg": cfg, "seed": 1, "sessions": 1, "events": sev, "tail": 5})
     # the same multi-session schedules once more with simultaneous events of different sessions processed
     # concurrently (ids "...b"); one run on a single P (goroutines interleave only where they block: shared
     # pools / caches hand objects from one session to the other), one on all Ps
